@@ -196,8 +196,11 @@ fn word_of<T>(w: &str, rd: impl Fn(&mut rl2tp::common::SliceReader) -> Result<T,
 /// depends on the contents only).  Capacity is not part of the value and may not show in what is encoded.
 fn roomy(mut v: Vec<u8>) -> Vec<u8> {
     let k = v.iter().fold(v.len(), |a, &b| a.wrapping_mul(31).wrapping_add(b as usize));
-    if k % 2 == 0 {
+    if k % 4 == 0 {
         v.reserve_exact(1 + k % 13);
+    } else if k % 4 == 2 {
+        // (room for a scratch area of some size behind the contents)
+        v.reserve_exact(40 + k % 300);
     }
     v
 }
